@@ -178,6 +178,20 @@ def seed_oracle(spec):
     want = np.array([x[row].mean() for row in table])
     require(np.all(np.abs(ea[1:] - want) <= 1e-12 * scale), 'default-seeded export is not the resampling given by the saved table',
             float(np.max(np.abs(ea[1:] - want))))
+    # seeding is by *chain* name: another replica of the same ensemble (same length) is resampled with its own table
+    if ns * n >= 24:
+        other = c['name'].split('|')[0] + '|zz_other_replica'
+        ob = build_obs({'chains': [dict(c, name=other)], 'cov': []})
+        tmp2 = tempfile.mkdtemp(prefix='verif_c13_')
+        f2 = os.path.join(tmp2, 'rng.txt')
+        try:
+            ob.export_bootstrap(samples=ns, save_rng=f2)
+            table2 = np.atleast_2d(np.loadtxt(f2, dtype=int)).reshape(ns, -1)
+        finally:
+            if os.path.exists(f2):
+                os.unlink(f2)
+            os.rmdir(tmp2)
+        require(not np.array_equal(table2, table), 'a different chain (%s vs %s) is resampled with the identical default table' % (other, c['name']))
     ea2 = a.export_bootstrap(samples=ns)
     require(np.array_equal(ea, ea2), 'two default-seeded exports of the same observable differ')
     eb = b.export_bootstrap(samples=ns)
